@@ -2,182 +2,56 @@ import MgpuProofs.C09CUEmuWgc
 /-! # C09, emulation compute unit — runs -/
 namespace C09.CUSide
 
-/-- fresh ids and time order (any tie-break), WITHOUT the whole-second hypothesis -/
-def EOkNoH (s : Emu) : EOp → Prop
-  | .deliver id => id ∉ s.got ∧ id ∉ s.inbuf
-  | o => Legal s o
-
-/-- fresh ids, events fired in ANY order (only pending events fire), no MapWGReq taken at a whole second -/
-def EOkAnyOrder (s : Emu) : EOp → Prop
-  | .deliver id => id ∉ s.got ∧ id ∉ s.inbuf
-  | .tick t => t ∈ s.ticks ∧ (s.inbuf ≠ [] → ¬ s.P ∣ t)
-  | .emu t => t ∈ s.emus
-  | .wgc t id => (t, id) ∈ s.wgcs
-  | _ => True
-
-instance (s : Emu) (o : EOp) : Decidable (EOk s o) := by
-  cases o <;> simp only [EOk] <;> infer_instance
-instance (s : Emu) (o : EOp) : Decidable (EOkNoH s o) := by
-  cases o <;> simp only [EOkNoH] <;> infer_instance
-instance (s : Emu) (o : EOp) : Decidable (EOkAnyOrder s o) := by
-  cases o <;> simp only [EOkAnyOrder] <;> infer_instance
-
-/-- every op of the run is allowed in the state it is applied to -/
-def RunOk (ok : Emu → EOp → Prop) : Emu → List EOp → Prop
-  | _, [] => True
-  | s, o :: os => ok s o ∧ RunOk ok (estep s o) os
-
-instance (ok : Emu → EOp → Prop) [∀ s o, Decidable (ok s o)] : ∀ (s : Emu) (ops : List EOp), Decidable (RunOk ok s ops)
-  | _, [] => isTrue trivial
-  | s, o :: os =>
-    have := instDecidableRunOk ok (estep s o) os
-    inferInstanceAs (Decidable (ok s o ∧ RunOk ok (estep s o) os))
-
-theorem einv_run {s : Emu} (h : EInv s) : ∀ (ops : List EOp), RunOk EOk s ops → EInv (erun s ops) := by
+/-- the bookkeeping invariant along any run with fresh ids in which only pending
+    WGCompleteEvents fire (any order) -/
+theorem ninv_run {s : Emu} (h : NInv s) : ∀ (ops : List EOp), RunOk EOkLoose s ops → NInv (erun s ops) := by
   intro ops
   induction ops generalizing s with
   | nil => intro _; exact h
   | cons o os ih =>
     intro hr
-    exact ih (einv_step h o hr.1) hr.2
+    exact ih (ninv_step h o hr.1) hr.2
 
-/-- what holds when nothing is left to fire -/
-theorem einv_quiescent {s : Emu} (h : EInv s) (he : s.emus = []) (hw : s.wgcs = []) :
-    s.queue = [] ∧ s.wfs = [] ∧ s.finished = [] ∧ ∀ x ∈ s.got, x ∈ flat s := by
-  have hq : s.queue = [] := by
-    false_or_by_contra
-    rename_i hc
-    exact h.q_emu hc he
+/-- the time invariant along any run of a time-ordered engine (any tie-break, no hypothesis on
+    whole seconds) -/
+theorem etime_run {s : Emu} (h : ETime s) : ∀ (ops : List EOp), RunOk EOkNoH s ops → ETime (erun s ops) := by
+  intro ops
+  induction ops generalizing s with
+  | nil => intro _; exact h
+  | cons o os ih =>
+    intro hr
+    exact ih (etime_step h o (eokNoH_legal hr.1)) hr.2
+
+/-- whatever the event order: no completion event pending and nothing queued ⇒ every request
+    taken is in a message and the bookkeeping is empty -/
+theorem ninv_quiescent {s : Emu} (h : NInv s) (hw : s.wgcs = []) (hq : s.queue = []) :
+    s.wfs = [] ∧ s.finished = [] ∧ ∀ x ∈ s.got, x ∈ flat s := by
   have hwf : s.wfs = [] := by
     apply List.eq_nil_iff_forall_not_mem.mpr
     intro x hx
-    rcases h.wfs_cov x hx with h1 | h1
+    rcases h.core.wfs_cov x hx with h1 | h1
     · rw [hq] at h1; cases h1
     · unfold wids at h1; rw [hw] at h1; cases h1
   have hf : s.finished = [] := by
     false_or_by_contra
     rename_i hc
-    rcases h.fin_cov hc with h1 | ⟨p, hp, _⟩
+    rcases h.fin_cov hc with h1 | h1
     · exact h1 hwf
-    · rw [hw] at hp; cases hp
-  refine ⟨hq, hwf, hf, ?_⟩
+    · exact h1 hw
+  refine ⟨hwf, hf, ?_⟩
   intro x hx
-  rcases h.got_cov x hx with h1 | h1 | h1
+  rcases h.core.got_cov x hx with h1 | h1 | h1
   · rw [hwf] at h1; cases h1
   · rw [hf] at h1; cases h1
   · exact h1
 
-/-! ### without any order: only "no unknown id" survives -/
-
-structure OInv (s : Emu) : Prop where
-  q_got : ∀ x ∈ s.queue, x ∈ s.got
-  fin_got : ∀ x ∈ s.finished, x ∈ s.got
-  wid_got : ∀ p ∈ s.wgcs, p.2 ∈ s.got
-  sent_got : ∀ x ∈ flat s, x ∈ s.got
-
-theorem oinv_tickLater {s : Emu} (h : OInv s) : OInv (tickLater s) := by
-  unfold tickLater
-  dsimp only
-  split
-  · split
-    · exact h
-    · exact ⟨h.q_got, h.fin_got, h.wid_got, h.sent_got⟩
-  · exact ⟨h.q_got, h.fin_got, h.wid_got, h.sent_got⟩
-
-theorem oinv_step {s : Emu} (h : OInv s) (o : EOp) (hok : EOkAnyOrder s o) : OInv (estep s o) := by
-  cases o with
-  | deliver id =>
-    show OInv (deliver s id).1
-    unfold deliver
-    split
-    · exact h
-    · dsimp only
-      split
-      · exact oinv_tickLater ⟨h.q_got, h.fin_got, h.wid_got, h.sent_got⟩
-      · exact ⟨h.q_got, h.fin_got, h.wid_got, h.sent_got⟩
-  | fill =>
-    show OInv (fill s).1
-    unfold fill
-    split
-    · exact h
-    · exact ⟨h.q_got, h.fin_got, h.wid_got, h.sent_got⟩
-  | take =>
-    show OInv (take s).1
-    unfold take
-    split
-    · exact h
-    · dsimp only
-      split
-      · exact oinv_tickLater ⟨h.q_got, h.fin_got, h.wid_got, h.sent_got⟩
-      · exact ⟨h.q_got, h.fin_got, h.wid_got, h.sent_got⟩
-  | tick t =>
-    show OInv (procMap { s with ticks := s.ticks.erase t, now := t })
-    unfold procMap
-    dsimp only
-    split
-    · exact ⟨h.q_got, h.fin_got, h.wid_got, h.sent_got⟩
-    · rename_i id rest _
-      have key : ∀ s' : Emu, s'.queue = s.queue ++ [id] → s'.finished = s.finished → s'.wgcs = s.wgcs →
-          s'.sent = s.sent → s'.got = s.got ++ [id] → OInv s' := by
-        intro s' e1 e2 e3 e4 e5
-        refine ⟨?_, ?_, ?_, ?_⟩
-        · intro x hx
-          rw [e5]; rw [e1] at hx
-          rcases List.mem_append.mp hx with hx | hx
-          · exact List.mem_append_left _ (h.q_got x hx)
-          · exact List.mem_append_right _ hx
-        · intro x hx; rw [e5]; rw [e2] at hx; exact List.mem_append_left _ (h.fin_got x hx)
-        · intro p hp; rw [e5]; rw [e3] at hp; exact List.mem_append_left _ (h.wid_got p hp)
-        · intro x hx
-          unfold flat at hx
-          rw [e5]; rw [e4] at hx; exact List.mem_append_left _ (h.sent_got x hx)
-      by_cases hc : s.nextTick ≤ t
-      · simp only [hc, if_true]; exact key _ rfl rfl rfl rfl rfl
-      · simp only [hc, if_false]; exact key _ rfl rfl rfl rfl rfl
-  | emu t =>
-    show OInv (runEmu { s with emus := s.emus.erase t, now := t })
-    unfold runEmu
-    refine ⟨(by intro x hx; cases hx), h.fin_got, ?_, h.sent_got⟩
-    intro p hp
-    rcases List.mem_append.mp hp with hp | hp
-    · exact h.wid_got p hp
-    · obtain ⟨x, hx, rfl⟩ := List.mem_map.mp hp
-      exact h.q_got x hx
-  | wgc t id =>
-    have hid : id ∈ s.got := h.wid_got _ hok
-    have hfin : ∀ x ∈ (if id ∈ s.finished then s.finished else s.finished ++ [id]), x ∈ s.got := by
-      intro x hx
-      split at hx
-      · exact h.fin_got x hx
-      · rcases List.mem_append.mp hx with hx | hx
-        · exact h.fin_got x hx
-        · simp at hx; rw [hx]; exact hid
-    have hw : ∀ p ∈ s.wgcs.erase (t, id), p.2 ∈ s.got := fun p hp => h.wid_got p (List.mem_of_mem_erase hp)
-    show OInv (wgComplete { s with wgcs := s.wgcs.erase (t, id), now := t } id)
-    unfold wgComplete
-    dsimp only
-    split
-    · exact ⟨h.q_got, hfin, hw, h.sent_got⟩
-    · split
-      · refine ⟨h.q_got, (by intro x hx; cases hx), hw, ?_⟩
-        intro x hx
-        have : x ∈ flat s ∨ x ∈ (if id ∈ s.finished then s.finished else s.finished ++ [id]) := by
-          simpa [flat] using hx
-        rcases this with hx | hx
-        · exact h.sent_got x hx
-        · exact hfin x hx
-      · refine ⟨h.q_got, hfin, ?_, h.sent_got⟩
-        intro p hp
-        rcases List.mem_append.mp hp with hp | hp
-        · exact hw p hp
-        · simp at hp; rw [hp]; exact hid
-
-theorem oinv_run {s : Emu} (h : OInv s) : ∀ (ops : List EOp), RunOk EOkAnyOrder s ops → OInv (erun s ops) := by
-  intro ops
-  induction ops generalizing s with
-  | nil => intro _; exact h
-  | cons o os ih =>
-    intro hr
-    exact ih (oinv_step h o hr.1) hr.2
+/-- time-ordered engine: no emulation and no completion event pending ⇒ nothing is queued either -/
+theorem einv_quiescent {s : Emu} (h : NInv s) (hT : ETime s) (he : s.emus = []) (hw : s.wgcs = []) :
+    s.queue = [] ∧ s.wfs = [] ∧ s.finished = [] ∧ ∀ x ∈ s.got, x ∈ flat s := by
+  have hq : s.queue = [] := by
+    false_or_by_contra
+    rename_i hc
+    exact hT.q_emu hc he
+  exact ⟨hq, ninv_quiescent h hw hq⟩
 
 end C09.CUSide
